@@ -274,6 +274,16 @@ def run_configs(ctx):
             key("relpath", where.split("/")[0])
             if not ctx.judge("relative-paths", rs[2], rs[3]["files"]):
                 return False
+        # ... and the SPEC tree lives somewhere else: below directories called like parts of the layout
+        for where in ("client/work/xml", "checkouts/server/eo-protocol/xml", "net/pub/map/xml"):
+            x2 = ctx.write_xml(tree, where)
+            o2 = ctx.path("loc_out")
+            rs = ctx.child([{"op": "rmtree", "dir": o2}, {"op": "new", "xml": x2}, {"op": "generate", "out": o2},
+                            {"op": "digest", "dir": o2}], "0")
+            res.count("fault.project_location")
+            key("relpath", "spec:" + where.split("/")[0])
+            if not ctx.judge("relative-paths", rs[2], rs[3]["files"]):
+                return False
     # ---- unrelated files and directories next to the spec files ---------------------------------------
     if "noise" in configs:
         xmln = ctx.write_xml(tree, "xml_noise")
